@@ -243,6 +243,28 @@ def run(repo: Repo, tier: str) -> Report:
     txt = ast.unparse(m)
     rep.ob("R-SIBLING(layout)", AFILE, "PixelAlgorithms.autocorr", "time-first data go to autocorr_tyx, everything else through apply_ufunc (time moved last) to autocorr",
            "if xx.dims[0] == 'time':" in txt, "", "dispatch on dims[0] == 'time'")
+    # the time-first arm labels the result itself: remaining dims in order, every coordinate but time, the kernel's data
+    das = [n for n in ast.walk(m) if isinstance(n, ast.Call) and ast.unparse(n.func).endswith("DataArray")]
+    kw = {k_.arg: norm_stmt(k_.value) for k_ in das[0].keywords} if das else {}
+    cnodes = [st.value for st in ast.walk(m) if isinstance(st, ast.Assign) and isinstance(st.targets[0], ast.Name) and st.targets[0].id == "coords"]
+    cdefs = [norm_stmt(c) for c in cnodes]
+
+    def all_but_time(c) -> bool:
+        # {k: v for k, v in xx.coords.items() if k != 'time'} with any variable names
+        if not (isinstance(c, ast.DictComp) and len(c.generators) == 1):
+            return False
+        g = c.generators[0]
+        if not (isinstance(g.target, ast.Tuple) and len(g.target.elts) == 2 and all(isinstance(e, ast.Name) for e in g.target.elts)):
+            return False
+        kn, vn = g.target.elts[0].id, g.target.elts[1].id
+        return (norm_stmt(g.iter) == "xx.coords.items()" and isinstance(c.key, ast.Name) and c.key.id == kn and isinstance(c.value, ast.Name) and c.value.id == vn
+                and len(g.ifs) == 1 and norm_stmt(g.ifs[0]) in (f"{kn} != 'time'", f"'time' != {kn}", f"not {kn} == 'time'"))
+    okl = (len(das) == 1 and kw.get("data") == "data" and kw.get("dims") in ("xx.dims[1:]", "tuple(xx.dims[1:])", "list(xx.dims[1:])") and kw.get("coords") == "coords"
+           and len(cnodes) == 1 and all_but_time(cnodes[0]))
+    rep.ob("R-BIND", AFILE, "PixelAlgorithms.autocorr", "time-first arm: the (y, x) result is labelled with the input's remaining dims in their order and all coordinates but time", okl,
+           f"DataArray({kw}); coords = {cdefs}", das[0] if das else "xarray.DataArray(...)")
+    from ..rules import r_truthy
+    r_truthy(rep, repo, "PixelAlgorithms", "autocorr", ["nodata"], "0 is a legitimate nodata value (it is the one the test-suite uses); a truth test silently replaces or drops it")
     rep.floor("C15 obligations", len(rep.obls), 40)
     return rep
 
